@@ -6,7 +6,7 @@ use std::collections::HashMap;
 
 pub fn c07_one(recs: &[Vec<u8>], k: usize, threads: usize, mem: f64, acgt: bool) -> Option<Vec<(String, String)>> {
     let sc = Scratch::new("ctr");
-    let inp = sc.path("in.fa");
+    let inp = sc.path(in_name());
     let outd = sc.path("out");
     std::fs::create_dir_all(&outd).unwrap();
     write_fasta(&inp, recs);
@@ -94,6 +94,18 @@ pub fn c07(o: &Opts) -> Outcome {
             if r.is_err() || lines != vec!["0\t5"] {
                 return Outcome { cases, witness: Some(vec![("records".into(), "AAAAAAAAAAAAAAAA".into()), ("k".into(), "12".into()), ("threads".into(), "4".into()), ("mem".into(), "6".into()), ("acgt".into(), "false".into()),
                     ("why".into(), format!("second run into a directory holding chunk files of an earlier run (merge(false)): got {:?}, expected [\"0\\t5\"]", &lines[..lines.len().min(4)]))]) };
+            }
+        }
+        // multi-member gzip input: every member is counted
+        {
+            let recs: Vec<Vec<u8>> = vec![b"ACGGTCATTGACCAGTTAGG".to_vec(), b"TTGACCATGGCATTAG".to_vec(), b"ACGGTCATTGACC".to_vec(), b"GGGGGGGGGGGGG".to_vec(), b"AC".to_vec()];
+            cases += 1;
+            if let Some(w) = with_gzm(|| c07_one(&recs, 10, 2, 6.0, false)) { return Outcome { cases, witness: Some(w) }; }
+            // a pass of records without k-mers between passes with k-mers, one record per pass
+            let recs: Vec<Vec<u8>> = vec![b"AAAAAAAA".to_vec(), b"NNNNNNNN".to_vec(), b"AAAAAAAA".to_vec()];
+            for (threads, mem) in [(1usize, 5e-9f64), (1, 1e-8), (2, 5e-9)] {
+                cases += 1;
+                if let Some(w) = c07_one(&recs, 4, threads, mem, false) { return Outcome { cases, witness: Some(w) }; }
             }
         }
         let few = vec![b"AAAAAAAAAAAAAAAAAAAA".to_vec(), b"AAAAAAAAAAAAAAA".to_vec(), b"ACG".to_vec()];
